@@ -98,7 +98,7 @@ func c16Values(r *rand.Rand, n int) []*big.Int {
 
 var mustReject = []string{"", "0x", "zz", "0xzz", " 1", "1 ", "1.5", "1e3", "0x 1", "--1", "abc", "0xg", "x10", "0x1.8", "١٢",
 	"0x+ff", "0x-1", "0x-0", "0x0x1", "0xx1", "0X-a", "0x+", "1-", "1+1", "0x1-"}
-var badIndex = []string{"-1", "4294967296", "18446744073709551616", "1.5", `"1"`, `"0x1"`, "1e10", "null1", "[1]", "true"}
+var badIndex = []string{"-1", "4294967296", "4294967297", "8589934591", "8589934592", "9223372036854775807", "9223372036854775808", "18446744073709551615", "18446744073709551616", "340282366920938463463374607431768211456", "1.5", `"1"`, `"0x1"`, "1e10", "null1", "[1]", "true"}
 
 func runC16(o *cli.Opts, run *evid.Run) {
 	run.Rule("one case = one parameter document: (a) PRNG parameter set -> repo Marshal -> independent reader + repo Unmarshal must both give the same values/shapes; " +
